@@ -40,7 +40,7 @@ def run_case(rng, tier, case):
     one_call = rng.random() < 0.2          # a fifth of the cases go through the documented shortcut eaopack.io.optimize
     if one_call:
         case.feature('route:io.optimize')
-    r = flow.run_portfolio(spec, split=split, one_call=one_call)
+    r = flow.run_portfolio(spec, split=split, one_call=one_call, data_form=gen.pick(rng, ['dict', 'frame_time', 'frame_pos']) if one_call else 'dict')
     if not r.ok:
         case.reject(flow.describe_error(r)); return
     if not r.solved:
